@@ -1,6 +1,7 @@
 import CelModel.Eval
 import CelModel.Macros
 import CelModel.CtxOps
+import CelModel.Refs
 /-!
 # Line protocol: s-expressions, decoding of cases, printing of answers
 
@@ -281,6 +282,20 @@ def answer (kind : String) (payload : List Sx) : String :=
      | .notMacro => "(not-macro)"
      | .error => "(macro-error)"
      | .ok e => "(expanded " ++ encExpr e ++ ")")
+  | "refs", [e] =>
+    let ex := decExpr e
+    let dedupSort : List String → List String := fun l =>
+      (l.foldl (fun acc n => if acc.contains n then acc else n :: acc) []).toArray.qsort (· < ·) |>.toList
+    "(refs (vars" ++ String.join ((dedupSort ex.vars).map (fun n => " " ++ nameAtom n)) ++ ") (funcs"
+      ++ String.join ((dedupSort ex.funcs).map (fun n => " " ++ nameAtom n)) ++ "))"
+  | "refexec", [c, e] =>
+    let ex := decExpr e
+    let dedupSort : List String → List String := fun l =>
+      (l.foldl (fun acc n => if acc.contains n then acc else n :: acc) []).toArray.qsort (· < ·) |>.toList
+    let (o, _) := execute (decCtx c) ex
+    "(refexec (vars" ++ String.join ((dedupSort ex.vars).map (fun n => " " ++ nameAtom n)) ++ ") (funcs"
+      ++ String.join ((dedupSort ex.funcs).map (fun n => " " ++ nameAtom n)) ++ ") "
+      ++ encOutcome encValue o ++ ")"
   | "ctxops", ops =>
     let decOp : Sx → Option CtxOp := fun x => match x with
       | .list [.atom "def", .atom n, v] => some (.define (atomName n) (decValue v))
